@@ -9,10 +9,13 @@ ALL_KINDS = ["op", "op", "comp", "comp", "struct", "struct", "kraus", "measure",
 
 
 def strategy(tier):
-    return S.program_case(ALL_KINDS, max_steps=8 if tier == "quick" else 14, min_steps=3)
+    from hypothesis import strategies as st
+
+    return st.one_of(S.program_case(ALL_KINDS, max_steps=8 if tier == "quick" else 14, min_steps=3),
+                     S.program_case(ALL_KINDS, max_steps=8 if tier == "quick" else 14, min_steps=3), S.lifecycle_case())
 
 RULE = (
-    "Histories: worlds/layouts/states as in C01, then 3-8 (thorough: 3-14) generated steps over all public call "
+    "Histories (two thirds): worlds/layouts/states as in C01, then 3-8 (thorough: 3-14) generated steps over all public call "
     "kinds - single and composite operations (unitary for the non-renormalising Fock types, arbitrary matrices "
     "for the renormalising custom types), channels, projective and generalised measurements with forced "
     "branches, structural calls, resizes, partial traces, toggling automatic contraction. Invariant after every "
